@@ -80,6 +80,8 @@ def do_add(world, rep, op):
     if out != exp:
         mismatch(world, 'add', {'op': op, 'expected': exp, 'got': out, 'msg': str(r) if st != 'ok' else None})
     if out == 'ok':
+        if m.frozen:
+            world.guard_hits['D23'] += 1
         if m.removal:
             cls = span_class(m, u, v, t, e)
             m.apply_add(u, v, t, e)
@@ -205,6 +207,8 @@ def do_node(world, rep, op):
     g, m = rep.g, rep.m
     kind = op['kind']
     attrs = copy.deepcopy(op.get('attrs') or {})
+    if m.frozen:
+        return {'out': 'skipped', 'fault': False, 'cls': 'node', 'keys': []}
     if rep.shared_attrs and attrs and kind in ('add_node', 'add_nodes_from') and \
             any(n in m.nodes for n in ([op['n']] if kind == 'add_node' else op['ns'])):
         # in-place update of an attribute dict that may be shared with another replica
